@@ -180,7 +180,7 @@ namespace QuaiVerif.Create
 /-- **C05 (creation is all-or-nothing)** a creation either reports failure and leaves the state exactly as it was -
 no debit, no outbound ETX, no account - or reports success, and then the creator was debited exactly the endowment
 and exactly the constructor's ETX (if any) was recorded. -/
-theorem C05_create_all_or_nothing (s : St) (endow ev : Nat) (emit : Bool) (e : Ending) :
+theorem C05_create_all_or_nothing_partial (s : St) (endow ev : Nat) (emit : Bool) (e : Ending) (he : e ≠ .storeoog) :
     (create s endow ev emit e = (s, false)) ∨
     ((create s endow ev emit e).2 = true ∧ endow ≤ s.creator ∧ e.accepted = true ∧
       (create s endow ev emit e).1.creator = s.creator - endow ∧
@@ -190,26 +190,40 @@ theorem C05_create_all_or_nothing (s : St) (endow ev : Nat) (emit : Bool) (e : E
   · left; simp [h1]
   · by_cases h2 : e.accepted = true
     · right; simp [h1, h2, inner]; omega
-    · left; simp [h1, h2]
+    · left; simp [h1, h2, he]
 
-/-- a creation whose constructor result is not acceptable (REVERT, error, 0xEF prefix, oversized code) never succeeds -/
-theorem C05_create_rejected_endings_fail (s : St) (endow ev : Nat) (emit : Bool) (e : Ending) (h : e.accepted = false) :
-    create s endow ev emit e = (s, false) := by
-  unfold create; split <;> simp [h]
+/-- a creation whose constructor result is not acceptable (REVERT, error, 0xEF prefix, oversized code) never succeeds
+and leaves nothing behind -/
+theorem C05_create_rejected_endings_fail (s : St) (endow ev : Nat) (emit : Bool) (e : Ending) (h : e.accepted = false)
+    (he : e ≠ .storeoog) : create s endow ev emit e = (s, false) := by
+  unfold create; split <;> simp [h, he]
+
+/-- **Finding (code-store out of gas).** The full statement - every failed creation leaves nothing behind - is false of
+the code: a constructor that returns code it cannot pay the deposit for makes the creation report failure while the
+endowment stays moved, the account stays created and the constructor's ETX stays recorded. -/
+theorem C05_counterexample_code_store_out_of_gas :
+    create ⟨500, 0, false, []⟩ 300 120 true .storeoog = (⟨200, 180, true, [120]⟩, false) := by decide
+
+theorem inner_total (s : St) (endow ev : Nat) (emit : Bool) (hev : ev ≤ s.created + endow) (he : endow ≤ s.creator) :
+    total (inner s endow ev emit) = total s := by
+  cases emit
+  · simp [total, inner]; omega
+  · simp [total, inner, List.sum_append]; omega
 
 /-- **C02 (creation creates no value)** what the creator, the created account and the recorded ETXs hold together is
-unchanged by a creation, provided the constructor sends no more than the account holds. -/
+unchanged by a creation - also by the one that fails without being undone - provided the constructor sends no more than
+the account holds. -/
 theorem C02_create_conserves_value (s : St) (endow ev : Nat) (emit : Bool) (e : Ending) (hev : ev ≤ s.created + endow) :
     total (create s endow ev emit e).1 = total s := by
   unfold create
   by_cases h1 : s.creator < endow
   · simp [h1]
-  · by_cases h2 : e.accepted = true
-    · simp only [h1, h2, if_true, if_false, total, inner]
-      cases emit
-      · simp; omega
-      · simp [List.sum_append]; omega
-    · simp [h1, h2]
+  · have he : endow ≤ s.creator := by omega
+    by_cases h2 : e.accepted = true
+    · simp only [h1, h2, if_true, if_false]; exact inner_total s endow ev emit hev he
+    · by_cases h3 : e = .storeoog
+      · simp only [h1, h2, h3, if_true, if_false]; exact inner_total s endow ev emit hev he
+      · simp [h1, h2, h3]
 
 example : create ⟨500, 0, false, []⟩ 300 120 true .code = (⟨200, 180, true, [120]⟩, true) ∧
           create ⟨500, 0, false, []⟩ 300 120 true .ef = (⟨500, 0, false, []⟩, false) ∧
